@@ -560,6 +560,10 @@ fn run_conc(scn_seed: u64, exec: u64, rng: &mut Rng, cfg: &StuckCfg, canary: &Ca
   for _ in 1..n_rx {
     rxs.push(rxs[0].clone());
   }
+  // idle extra receivers make the last sender's disconnect sweep long, and a cloner thread keeps cloning a
+  // receiver until every sender is gone: its last clones straddle that sweep and must still end up disconnected
+  let ballast: Vec<TopicReceiver<K, T>> = (0..*rng.pick(&[0usize, 0, 40, 200])).map(|_| rxs[0].clone()).collect();
+  let cloner_src = if rng.chance(2, 3) { Some(rxs[0].clone()) } else { None };
   let nthreads = n_tx + n_rx;
   let sh = Arc::new(Conc { logs: (0..nthreads).map(|_| Arc::new(Log::default())).collect(), done: (0..nthreads).map(|_| AtomicBool::new(false)).collect(),
     late: Mutex::new(vec![]), late_clones: std::sync::atomic::AtomicU64::new(0) });
@@ -729,6 +733,42 @@ fn run_conc(scn_seed: u64, exec: u64, rng: &mut Rng, cfg: &StuckCfg, canary: &Ca
     threads.push(j.thread().clone());
     joins.push(j);
   }
+  let cloner = cloner_src.map(|src| {
+    let s2 = sh.clone();
+    std::thread::spawn(move || {
+      let mut last: VecDeque<TopicReceiver<K, T>> = VecDeque::new();
+      let t0 = std::time::Instant::now();
+      while !(0..n_tx).all(|t| s2.done[t].load(Ordering::SeqCst)) && t0.elapsed() < Duration::from_secs(20) {
+        last.push_back(src.clone());
+        if last.len() > 6 {
+          last.pop_front();
+        }
+      }
+      if !(0..n_tx).all(|t| s2.done[t].load(Ordering::SeqCst)) {
+        return;
+      }
+      last.push_back(src);
+      for (k, lc) in last.iter().enumerate() {
+        s2.late_clones.fetch_add(1, Ordering::SeqCst);
+        let mut n = 0;
+        loop {
+          n += 1;
+          match lc.try_recv() {
+            Ok(_) if n < 1_000_000 => continue,
+            Ok(_) => break,
+            Err(TryRecvError::Disconnected) => break,
+            Err(TryRecvError::Empty) => {
+              s2.late.lock().unwrap().push(Finding {
+                rule: "no-disconnected-after-senders-gone".into(),
+                summary: format!("receiver clone #{} of the last {} made while the senders were leaving reports Empty after every sender handle was dropped and its mailbox is drained: it never observes Disconnected", k, last.len()),
+              });
+              break;
+            }
+          }
+        }
+      }
+    })
+  });
   start.wait();
   let (stuck_report, leaked) = {
     let (s1, s2, s3) = (sh.clone(), sh.clone(), sh.clone());
@@ -756,7 +796,11 @@ fn run_conc(scn_seed: u64, exec: u64, rng: &mut Rng, cfg: &StuckCfg, canary: &Ca
     for j in joins {
       let _ = j.join();
     }
+    if let Some(c) = cloner {
+      let _ = c.join();
+    }
   }
+  drop(ballast);
   let totals = chaos::take_totals();
   let evs = merge(&sh.logs);
   let mut f: Vec<Finding> = vec![];
